@@ -39,6 +39,8 @@ def value_case(asm, acc, seed, idx):
     nontriv = False
     for k in range(nconst):
         name = rng.choice(['K', 'FOO_', 'base', 'GPIO_BASE_ADDR_', 'x_']) + str(k)
+        if env and rng.random() < 0.25:
+            name = rng.choice(list(env))          # a later definition of the same name (e.g. OFF = OFF + 4): the last one is the value
         for _ in range(20):
             t = exprs.gen(rng, rng.randint(1, 5), env.keys())
             try:
@@ -55,7 +57,12 @@ def value_case(asm, acc, seed, idx):
         lines.append('%s%s=%s%s' % (name, rng.choice([' ', '  ', '\t']), rng.choice([' ', '  ']), text))
     src = '\n'.join(lines) + '\n'
     acc['n'] += 1
-    o = monitors.observe(asm, src, tap=False)
+    preseed = None
+    if idx % 4 == 3:
+        # the caller's constants table already holds some of the names (left over from another build): the program's own
+        # definitions are what the program means
+        preseed = {'constants': {n: rng.randrange(-99, 99) for n in list(exp)[:2]}}
+    o = monitors.observe(asm, src, tap=False, preseed=preseed)
     case = {'kind': 'value', 'seed': seed, 'idx': idx}
     if nontriv:
         acc['ntkeys'].add(core.ckey(src))
@@ -67,7 +74,7 @@ def value_case(asm, acc, seed, idx):
     for name, v in exp.items():
         got = o.constants.get(name)
         if got != v or type(got) is not int:
-            ln = next(l for l in lines if l.startswith(name))
+            ln = [l for l in lines if l.split()[0] == name][-1]
             core.add_viol(acc, 'constant `%s` evaluates to %r; the value of the expression is %d' % (ln, got, v), case, {'lines': lines})
             break
     if idx % 301 == 0:
